@@ -14,6 +14,15 @@ From BB Require Import BN Brute SpaceFacts TrapFacts PercolateFacts AttractorFac
   Strict PetriNet Control Meta FilterFacts PetriNetFacts TrappistFacts DiagramStruct DiagramSem1 DiagramCache
   DiagramDepth DiagramComplete Termination ControlFacts MetaFacts Candidates StrictFacts MinExpandFacts CandidatesFacts SymbolicTest SymbolicTestFacts Signed ReductionFacts ControlFacts2 Main Blocks BlocksFacts ObsFacts OwnerFacts CandidatesTerm
   PartialOwner BlockMath BlockComplete ASeeds ASeedsFacts LogChecks SkipRule SkipRuleFacts Names NamesFacts Perm PermFacts SCC SCCFacts SCCStruct ControlFacts3 SCCTerm FilterSym Main2 StrategyFacts ControlFacts4 SkipRuleFacts2 SCCComplete SCCAttr BlockComplete2 ControlFacts5 Iso SkipSem ControlFacts6.
+From BB Require Import PyLib PyLibSd PySrcSdBase PySrcSd PySrcSdFacts.
+
+(* translator tie: the function GENERATED from the current text of biobalm/_sd_algorithms/expand_bfs.py (PySrcSd.v, regenerated on every run; embedding PyLibSd.v) equals the model's expand_bfs for every diagram, every limit and every fuel *)
+Theorem C04_source_expand_bfs : forall (fuel : nat) (N : net) (cfg : config) (d : sd) (start level_limit size_limit : option nat), py_expand_bfs fuel N cfg d start level_limit size_limit = expand_bfs fuel N cfg d start level_limit size_limit.
+Proof. exact py_expand_bfs_spec_all. Qed.
+
+(* ... and expand_dfs.py the model's expand_dfs *)
+Theorem C04_source_expand_dfs : forall (fuel : nat) (N : net) (cfg : config) (d : sd) (start stack_limit size_limit : option nat), py_expand_dfs fuel N cfg d start stack_limit size_limit = expand_dfs fuel N cfg d start stack_limit size_limit.
+Proof. exact py_expand_dfs_spec_all. Qed.
 
 Theorem C04_run_invariants : forall (fuel : nat) (N : net) (cfg : config) (h : list op) (d : sd) (r : result), 1 <= max_motifs cfg -> Forall plain h -> In (d, r) (run fuel N cfg (init N) h) -> SWF N d /\ TrapNodes N d /\ EdgeStrict d /\ NoStubEdges d /\ Rooted d /\ Faithful N d.
 Proof. exact run_invariants. Qed.
@@ -64,6 +73,8 @@ Definition ex_cfg : config := {| max_motifs := 1000 |}.
 Example C04_example : Forall plain [OExpandNode 0; ODfs (Some 1) (Some 0) (Some 3); OBfs None (Some 1) None].
 Proof. repeat constructor. Qed.
 
+Print Assumptions C04_source_expand_bfs.
+Print Assumptions C04_source_expand_dfs.
 Print Assumptions C04_run_invariants.
 Print Assumptions C04_step_Faithful_all.
 Print Assumptions C04_step_NoStubEdges.
